@@ -231,9 +231,14 @@ class Package:
         if k == "tup":
             return tuple(self.build(x) for x in seq(o["a"]))
         if k == "map":
-            return {key: self.build(x) for key, x in fun(o["f"]).items()}
+            return {key: self.build(x, _map_val_ann(ann)) for key, x in fun(o["f"]).items()}
         if k == "inst":
-            cls = self.cls_of(o["cls"])
+            if o["cls"]["kind"] == "literal":
+                cls = _attrs_class_in(ann)       # an anonymous literal class is found through the annotation that holds it
+                if cls is None:
+                    raise LookupError("no class for an anonymous literal in annotation %r" % (ann,))
+            else:
+                cls = self.cls_of(o["cls"])
             amap = self.attr_map(cls)
             kwargs = {}
             for pname, val in fun(o["p"]).items():
@@ -256,6 +261,32 @@ def _wants_float(ann):
         if ann.__origin__ is typing.Union:
             return any(a is float for a in args) and not any(a is int for a in args)
     return False
+
+
+def _attrs_class_in(ann, depth=0):
+    if depth > 6 or ann is None:
+        return None
+    if isinstance(ann, type) and attrs.has(ann):
+        return ann
+    for a in getattr(ann, "__args__", ()) or ():
+        r = _attrs_class_in(a, depth + 1)
+        if r is not None:
+            return r
+    return None
+
+
+def _map_val_ann(ann, depth=0):
+    import typing
+    args = getattr(ann, "__args__", None)
+    if not args or depth > 4:
+        return None
+    if getattr(ann, "__origin__", None) is typing.Union:
+        for a in args:
+            r = _map_val_ann(a, depth + 1)
+            if r is not None:
+                return r
+        return None
+    return args[1] if len(args) == 2 else None
 
 
 def _elem_ann(ann):
